@@ -112,6 +112,33 @@ class EachV(Val):
         self.var, self.coll, self.elems = var, coll, list(elems)
 
 
+class DictV(Sym):
+    """A dict literal with constant keys: still an opaque symbol by its text, but lookups by a constant key are decided."""
+    def __init__(self, text, pairs):
+        Sym.__init__(self, text)
+        self.pairs = pairs          # [(Const key, Val value)]
+
+    def lookup(self, key):
+        """-> value Val, None when the key is certainly absent, or False when undecidable."""
+        if not isinstance(key, Const):
+            return False
+        for k, v in self.pairs:
+            try:
+                if k.value == key.value:
+                    return v
+            except Exception:
+                return False
+        return None
+
+
+class LambdaV(Sym):
+    """A lambda: an opaque symbol by its source text that can also be applied."""
+    def __init__(self, text, fi, closure_env):
+        Sym.__init__(self, text)
+        self.fi = fi
+        self.closure_env = closure_env
+
+
 class FuncV(Val):
     def __init__(self, fi, closure_env=None):
         self.fi = fi
@@ -416,6 +443,17 @@ def mk_slice(inner, lo, hi):
     lo, hi = lin_norm(lo), lin_norm(hi)
     if lo == '0':
         lo = ''
+    # x[len(x) - k:] is x[-k:], x[:len(x) - k] is x[:-k], x[:len(x)] is x[:]   (in-bounds reading)
+    it_text = 'len(%s)' % (inner if isinstance(inner, str) else render_items(inner))
+    for which, b in (('lo', lo), ('hi', hi)):
+        if b and it_text in b:
+            terms, c = lin_parse(b)
+            if terms == {it_text: 1} and c <= 0:
+                nb = str(c) if c < 0 else ''
+                if which == 'lo' and c < 0:
+                    lo = nb
+                elif which == 'hi':
+                    hi = nb
     if isinstance(inner, list):
         its = merge_consts(inner)
         if len(its) == 1 and its[0][0] == 'SLICE':
@@ -573,6 +611,9 @@ class Frame(object):
                 k += 1
                 self.bindex[id(n)] = k
             elif isinstance(n, ast.comprehension):
+                k += 1
+                self.bindex[id(n)] = k
+            elif isinstance(n, ast.Call) and isinstance(n.func, ast.Name) and n.func.id == 'filter' and len(n.args) == 2:
                 k += 1
                 self.bindex[id(n)] = k
 
@@ -934,9 +975,24 @@ class Frame(object):
                 if c not in base.stores:
                     base.stores.append(c)
         base.facts = [f for f in base.facts if f in before.facts]
+        # locals first bound on another path of the iteration are bound after the loop as well
+        for s in normal[1:]:
+            for k, v in s.env.items():
+                if k not in base.env:
+                    base.env[k] = v
         # names (re)bound in the body but not accumulators become loop-carried symbols only if they differ
         if node.orelse and any(status == 'break' for _, status in body):
-            outs.append((base.fork(), 'normal'))        # left by `break`: the else clause is skipped
+            brk = base.fork()                           # left by `break`: the else clause is skipped
+            bn = self._bname(node)
+            for s, status in body:                      # ... with the locals as the breaking path left them
+                if status == 'break' and s is not base:
+                    for k, v in s.env.items():
+                        if '.' not in k and '[' not in k and not isinstance(v, (Bytes, Hasher, ListV)) and entry_env.get(k) != render(v):
+                            brk.env[k] = v
+            if bn in brk.loops:
+                brk.loops[bn] = (brk.loops[bn][0], [r for r in brk.loops[bn][1] if r[3] == 'break'])
+                base.loops[bn] = (base.loops[bn][0], [r for r in base.loops[bn][1] if r[3] != 'break'])
+            outs.append((brk, 'normal'))
         outs.extend(self.block(node.orelse, base))
         return outs
 
@@ -1067,6 +1123,10 @@ class Frame(object):
             return None
         if isinstance(op, (ast.In, ast.NotIn)):
             neg = isinstance(op, ast.NotIn)
+            if isinstance(r, DictV):
+                hit = r.lookup(l)
+                if hit is not False:
+                    return (hit is None) if neg else (hit is not None)
             if isinstance(l, Const) and isinstance(r, ListV) and all(isinstance(e, Const) for e in r.elems):
                 res = any(e.value == l.value for e in r.elems)
                 return (not res) if neg else res
@@ -1286,13 +1346,20 @@ class Frame(object):
         parts = []
         for k, v in zip(node.keys, node.values):
             parts.append('%s: %s' % (self.text(k, st) if k is not None else '**', self.text(v, st)))
-        return Sym('{%s}' % ', '.join(parts))
+        text = '{%s}' % ', '.join(parts)
+        if node.keys and all(k is not None for k in node.keys):
+            pairs = [(self.ev(k, st, quiet=True), self.ev(v, st, quiet=True)) for k, v in zip(node.keys, node.values)]
+            if all(isinstance(k, Const) for k, _ in pairs):
+                return DictV(text, pairs)
+        return Sym(text)
 
     def ev_Starred(self, node, st):
         return Sym('*' + self.text(node.value, st))
 
     def ev_Lambda(self, node, st):
-        return Sym(ast.unparse(node))
+        fd = ast.FunctionDef(name='<lambda>', args=node.args, body=[ast.Return(value=node.body, lineno=node.lineno, col_offset=0)],
+                             decorator_list=[], returns=None, type_comment=None, lineno=node.lineno, col_offset=0)
+        return LambdaV(ast.unparse(node), FunctionInfo(fd, self.module, None, outer=self.fi), st.env)
 
     def _map_known(self, node, st):
         """[f(x) for x in L] with L a known list: map element-wise (EachV elements are mapped inside)."""
@@ -1485,6 +1552,10 @@ class Frame(object):
                 return Bytes([mk_slice(merge_consts(base.items), lo, hi)])
             return Bytes([mk_slice(render(base), lo, hi)])
         idx = self.ev(sl, st)
+        if isinstance(base, DictV):
+            hit = base.lookup(idx)
+            if hit is not None and hit is not False:
+                return hit
         if isinstance(base, ListV) and isinstance(idx, Const) and isinstance(idx.value, int):
             try:
                 return base.elems[idx.value]
@@ -1558,7 +1629,10 @@ class Frame(object):
                     record(ftext)
                     return Const(None)
                 if meth == 'extend' and len(args) == 1:
-                    tgt.items.extend(as_items(args[0]))
+                    if isinstance(args[0], ListV) and not any(isinstance(e, EachV) for e in args[0].elems):
+                        tgt.items.extend(('BYTE', render(e)) for e in args[0].elems)
+                    else:
+                        tgt.items.extend(as_items(args[0]))
                     record(ftext)
                     return Const(None)
             if isinstance(recv, Hasher):
@@ -1585,6 +1659,11 @@ class Frame(object):
                     recv.elems.extend(args[0].elems)
                     record(ftext)
                     return Const(None)
+            if isinstance(recv, DictV) and meth == 'get' and 1 <= len(args) <= 2 and not kwargs:
+                hit = recv.lookup(args[0])
+                if hit is not False:
+                    record(ftext)
+                    return hit if hit is not None else (args[1] if len(args) == 2 else Const(None))
             if isinstance(recv, Bytes) and meth == 'join' and len(args) == 1:
                 record(ftext)
                 if isinstance(args[0], ListV) and not merge_consts(recv.items):
@@ -1665,6 +1744,30 @@ class Frame(object):
                 if r is not None:
                     return r
                 return Sym('%s(%s)' % (n, self._argtext(args, kwargs)))
+            if isinstance(callee, LambdaV):
+                record(n)
+                r = self._maybe_inline(callee.fi, None, args, kwargs, st, node, closure=callee.closure_env, force=True)
+                if r is not None:
+                    return r
+            if n == 'filter' and len(node.args) == 2 and not kwargs and isinstance(args[0], (LambdaV, FuncV)) and id(node) in self.bindex:
+                pf = args[0].fi
+                body = [b for b in pf.node.body if not (isinstance(b, ast.Expr) and isinstance(b.value, ast.Constant))]
+                if len(pf.params) == 1 and len(body) == 1 and isinstance(body[0], ast.Return) and body[0].value is not None:
+                    # filter(pred, coll) is (x for x in coll if pred(x)): the same summary as the comprehension
+                    bn = self._bname(node)
+                    it = self._iter_values(node.args[1], st, bn)[1]
+                    s2 = st.fork()
+                    for k, v in (args[0].closure_env or {}).items():
+                        s2.env.setdefault(k, v)
+                    s2.env[pf.params[0]] = Sym(bn, nonnull=True)
+                    cond = self.cond_text(body[0].value, s2)
+                    st.bound[bn] = it.split(' if ')[0]
+                    record(n)
+                    return EachV(bn, '%s if %s' % (it, cond), [Sym(bn, nonnull=True)])
+            if isinstance(callee, Sym) and n not in ('bytearray', 'bytes', 'len', 'range', 'getattr', 'isinstance'):
+                # a local / parameter bound to an opaque callable: the call is a call of that VALUE, not of the local's name
+                record(callee.text)
+                return Sym('%s(%s)' % (callee.text, self._argtext(args, kwargs)))
             if n in ('bytearray', 'bytes'):
                 record(n)
                 if not args:
@@ -1680,6 +1783,8 @@ class Frame(object):
                     return Bytes([('SYM', a.text)])
                 if isinstance(a, Const) and isinstance(a.value, int):
                     return Bytes([('REP', [('C', b'\x00')], render(a))])
+                if isinstance(a, Sym) and re.search(r' (//|>>|<<) ', _toplevel(_strip_parens(a.text))):
+                    return Bytes([('REP', [('C', b'\x00')], a.text)])      # an integer-valued expression: that many zero octets
                 return Bytes([('SYM', a.text if isinstance(a, Sym) else render(a))])
             if n == 'len' and len(args) == 1:
                 record(n)
@@ -1733,7 +1838,13 @@ class Frame(object):
                 return Sym('%s(%s)' % (n, self._argtext(args, kwargs)))
             record(n)
             return Sym('%s(%s)' % (n, self._argtext(args, kwargs)))
-        ftext = self.text(func, st)
+        fv = self.ev(func, st, quiet=True)
+        if isinstance(fv, (LambdaV, FuncV)):
+            record(render(fv))
+            r = self._maybe_inline(fv.fi, None, args, kwargs, st, node, closure=fv.closure_env, force=True)
+            if r is not None:
+                return r
+        ftext = render(fv)
         record(ftext)
         return Sym('%s(%s)' % (ftext, self._argtext(args, kwargs)))
 
@@ -1925,7 +2036,14 @@ OPS = {ast.Add: '+', ast.Sub: '-', ast.Mult: '*', ast.Div: '/', ast.FloorDiv: '/
        ast.Eq: '==', ast.NotEq: '!=', ast.Lt: '<', ast.LtE: '<=', ast.Gt: '>', ast.GtE: '>=', ast.Is: 'is',
        ast.IsNot: 'is not', ast.In: 'in', ast.NotIn: 'not in'}
 
+def _small_pow(a, b):
+    if isinstance(a, int) and isinstance(b, int) and 0 <= b <= 64 and abs(a) <= 65536:
+        return a ** b
+    raise ValueError('not folded')
+
+
 PYOPS = {ast.Sub: lambda a, b: a - b, ast.Mult: lambda a, b: a * b, ast.FloorDiv: lambda a, b: a // b,
          ast.Mod: lambda a, b: a % b, ast.LShift: lambda a, b: a << b, ast.RShift: lambda a, b: a >> b,
          ast.BitOr: lambda a, b: a | b, ast.BitAnd: lambda a, b: a & b, ast.BitXor: lambda a, b: a ^ b,
-         ast.Add: lambda a, b: a + b}
+         ast.Add: lambda a, b: a + b,
+         ast.Pow: lambda a, b: _small_pow(a, b)}
